@@ -479,6 +479,11 @@ private:"""),
          old="            bundle.append(y, gy, fy);", new="            bundle.append(y, gy, fy);\n            bundle.append(bundle.x(), bundle.gx(), bundle.fx());"),
     dict(property="C03", name="fpba-restart-moves-bundle-back", rule="R-C03-10", file="src/solver/fpba.cpp",
          old="            sequence.reset();", new="            sequence.reset();\n            bundle.moveto(z, gz, fz);"),
+    dict(property="C20", name="histogram-update-key-narrowed-to-element-type", rule="R-C20-1", file="include/nano/core/histogram.h", tu="src/machine/result.cpp",
+         old="""                const auto op = [](scalar_t threshold, scalar_t value) { return value >= threshold; };
+                const auto it = std::upper_bound(begin, end, m_thresholds(bin), op);""",
+         new="""                using tvalue = typename std::iterator_traits<titerator>::value_type;
+                const auto it = std::lower_bound(begin, end, static_cast<tvalue>(m_thresholds(bin)));"""),
     dict(property="C14", name="make-scaling-skipped-for-small-range", rule="R-C14-8", file="src/dataset/stats.cpp",
          old="    if (stats.m_min.size() > 0)\n    {\n        switch (scaling)", new="    if (stats.m_min.size() > 0 && stats.m_div_range.max() < 1e+6)\n    {\n        switch (scaling)"),
     dict(property="C14", name="make-scaling-early-return-without-samples", rule="R-C14-8", file="src/dataset/stats.cpp",
@@ -1331,6 +1336,10 @@ BENIGN = [
             m_lgx += m_meq(eq) * cgrad;
             ++eq;
         }"""),
+    dict(property="C20", name="histogram-update-lower-bound-default-order", file="include/nano/core/histogram.h", tu="src/machine/result.cpp",
+         old="""                const auto op = [](scalar_t threshold, scalar_t value) { return value >= threshold; };
+                const auto it = std::upper_bound(begin, end, m_thresholds(bin), op);""",
+         new="""                const auto it = std::lower_bound(begin, end, m_thresholds(bin));"""),
     dict(property="C14", name="make-scaling-guard-on-other-member", file="src/dataset/stats.cpp",
          old="    if (stats.m_min.size() > 0)\n    {\n        switch (scaling)", new="    if (0 != stats.m_samples.size())\n    {\n        switch (scaling)"),
     dict(property="C14", name="scale-mean-reassociated", file="src/dataset/stats.cpp",
